@@ -5,7 +5,7 @@ From Coq Require Import String.
 From Coq Require Import ZArith List Bool Lia.
 From Coq.Strings Require Import Byte.
 From Verif Require Import Lib.Bytes Lib.BitRegroup Crypto.Sha256 Gen.GenConsts Gen.GenNetworks
-  Model.Base58 Model.Bech32 Proofs.Base58 Proofs.Base58Check Proofs.Bech32
+  Model.Base58 Model.Bech32 Proofs.Base58 Proofs.Base58Check Proofs.Base58Fixed Proofs.Bech32
   Proofs.Bech32Convert Proofs.Bech32Roundtrip Proofs.Bech32Errors Proofs.Bech32Canonical.
 Import ListNotations.
 Open Scope Z_scope.
@@ -80,6 +80,38 @@ Theorem b58_lib_canonical_deserialize : forall H enc_b58 s i,
      exists nw, In nw all_networks /\ nw_name nw = nm /\
                 (nw_prefix_address nw = ai_prefix i \/ nw_prefix_address_p2sh nw = ai_prefix i)).
 Proof. exact deser_b58_canonical. Qed.
+
+(* the fixed-length guards of the key importers (HDKey.from_wif, HDKey(extended key string): 82 bytes; bip38_decrypt:
+   43 bytes): an accepted string decodes to EXACTLY that many bytes, the last four are the checksum of ALL the others,
+   and the string is THE Base58Check spelling of the payload (decode then re-encode is the identity); a string whose
+   decoding has any other length - a valid payload with bytes appended, prepended or inserted, or one byte short - is
+   refused whatever checksum it carries *)
+Theorem fixed_length_accept_canonical : forall H total s p,
+  (4 <= total)%nat -> lib_fixed_check H total s = Some p ->
+  length p = (total - 4)%nat /\
+  exists d, spec_b58_dec s = Some d /\ length d = total /\ d = p ++ firstn 4 (H p) /\ s = b58check_enc H p.
+Proof. exact fixed_accepted_has_exact_length. Qed.
+
+Theorem fixed_length_other_length_refused : forall H total s d,
+  spec_b58_dec s = Some d -> length d <> total -> lib_fixed_check H total s = None.
+Proof. exact fixed_other_length_refused. Qed.
+
+(* non-vacuity with the executable SHA-256: BIP32 test vector 1 (xprv of the master key) passes the 82-byte guard, the
+   same payload followed by one junk byte - with its own checksum left in place - does not *)
+Definition xprv_tv1 : bytes :=
+  str "xprv9s21ZrQH143K3QTDL4LXw2F7HEK3wJUD2nW2nRk4stbPy6cq3jPPqjiChkVvvNKmPGJxWUtg6LnF5kejMRNNU3TGtRBeJgk33yuGBxrMPHi".
+Example fixed_length_witness :
+  (exists p, lib_xkey_check sha256d xprv_tv1 = Some p /\ length p = 78%nat) /\
+  (forall d, spec_b58_dec xprv_tv1 = Some d -> lib_xkey_check sha256d (b58_enc (d ++ [x07])) = None).
+Proof.
+  split.
+  - eexists. split; vm_compute; reflexivity.
+  - intros d Hd. apply (fixed_length_other_length_refused sha256d 82 _ (d ++ [x07])).
+    + apply b58_bijection_dec_enc.
+    + assert (L : length d = 82%nat).
+      { revert Hd. vm_compute. intros E. injection E as E. rewrite <- E. reflexivity. }
+      rewrite app_length, L. simpl. lia.
+Qed.
 
 (* non-vacuity, with the executable SHA-256: the documented example address is accepted *)
 Definition addr_ok : bytes := str "1Khyc5eUddbhYZ8bEZi9wiN8TrmQ8uND4j".
@@ -469,3 +501,5 @@ Print Assumptions bech32_transposition_detected.
 Print Assumptions bech32_mixed_case_rejected.
 Print Assumptions bech32_overlong_rejected.
 Print Assumptions bech32_foreign_character_rejected.
+Print Assumptions fixed_length_accept_canonical.
+Print Assumptions fixed_length_other_length_refused.
